@@ -106,20 +106,21 @@ def truncC (d : Bytes) (h : Handle) (size : Int) : Bytes × FOut :=
     | none => (d, .panic)
     | some s => (s, .ok)
 
+/-- the position `Seek` computes (the source's switch has no default: an unknown whence leaves
+    the position where it is) -/
+def seekTarget (d : Bytes) (h : Handle) (off : Int) (whence : Nat) : Int :=
+  match whence with
+  | 0 => off
+  | 1 => h.pos + off
+  | 2 => d.length + off
+  | _ => h.pos
+
 /-- `File.Seek` (mem/file.go:264-277, as repaired: a negative resulting position is rejected
     and leaves the offset alone). -/
 def seekC (d : Bytes) (h : Handle) (off : Int) (whence : Nat) : Handle × FOut :=
   if h.closed then (h, .err .closed)
-  else
-    let target : Option Int :=
-      match whence with
-      | 0 => some off
-      | 1 => some (h.pos + off)
-      | 2 => some (d.length + off)
-      | _ => some h.pos          -- the source's switch has no default: position unchanged
-    match target with
-    | none => (h, .err .inval)
-    | some t => if t < 0 then (h, .err .inval) else ({ h with pos := t }, .pos t)
+  else if seekTarget d h off whence < 0 then (h, .err .inval)
+  else ({ h with pos := seekTarget d h off whence }, .pos (seekTarget d h off whence))
 
 def closeC (h : Handle) : Handle × FOut := ({ h with closed := true }, .ok)
 
@@ -236,9 +237,8 @@ def stepS (s : FileSt) (op : FOp) : FileSt × FOut :=
     | some h =>
       if h.closed then (s, .err .closed)
       else
-        let t : Int := match wh with
-          | 0 => off | 1 => h.pos + off | 2 => s.data.length + off | _ => h.pos
-        if t < 0 then (s, .err .inval) else (s.setH i { h with pos := t }, .pos t)
+        if seekTarget s.data h off wh < 0 then (s, .err .inval)
+        else (s.setH i { h with pos := seekTarget s.data h off wh }, .pos (seekTarget s.data h off wh))
   | .close i => match s.hs[i]? with
     | none => (s, .err .inval)
     | some h => (s.setH i { h with closed := true }, .ok)
